@@ -60,7 +60,15 @@ func runSolver(ctx context.Context, sd solverDef, file string, timeout time.Dura
 	cmd.Run()
 	secs = time.Since(t0).Seconds()
 	out = buf.String()
-	first := strings.TrimSpace(strings.SplitN(out, "\n", 2)[0])
+	first := ""
+	for _, l := range strings.Split(out, "\n") {
+		l = strings.TrimSpace(l)
+		if l == "" || strings.HasPrefix(l, "WARNING") {
+			continue
+		}
+		first = l
+		break
+	}
 	switch first {
 	case "unsat", "sat", "unknown":
 		return first, out, secs
@@ -78,6 +86,9 @@ func runSolver(ctx context.Context, sd solverDef, file string, timeout time.Dura
 
 // Solve races the portfolio on one obligation.
 func Solve(o *Oblig, dir string, timeout time.Duration, thorough bool) *SolveResult {
+	if (o.Cover || (o.Quick && len(o.ExtraAs) == 0)) && timeout > 3*time.Second {
+		timeout = 3 * time.Second
+	}
 	file := filepath.Join(dir, sanitize(o.Name)+".smt2")
 	os.WriteFile(file, []byte(o.smtFile(true)), 0o644)
 	res := &SolveResult{Status: "unknown", File: file, All: map[string]string{}}
@@ -267,7 +278,16 @@ func SolveBatch(fc *FnCtx, dir string, perCheckMs int) {
 	}
 	// obligations are generated in order of NFacts
 	file := filepath.Join(dir, "batch_"+sanitize(fc.key)+".smt2")
-	os.WriteFile(file, []byte(batchFile(fc, obs)), 0o644)
+	txt := batchFile(fc, obs)
+	if fc.c != nil && fc.c.Opts["strings"] == "opaque" {
+		t2, err := opaqueText(txt)
+		if err != nil {
+			fc.unsupported("%v", err)
+			return
+		}
+		txt = t2
+	}
+	os.WriteFile(file, []byte(txt), 0o644)
 	procSem <- struct{}{}
 	t0 := time.Now()
 	total := time.Duration(perCheckMs*len(obs))*time.Millisecond + 5*time.Second
@@ -302,7 +322,7 @@ func SolveBatch(fc *FnCtx, dir string, perCheckMs int) {
 			break
 		}
 		a := answers[i]
-		if (a == "unsat" && !o.Cover) || (a == "sat" && o.Cover) {
+		if (a == "unsat" && !o.Cover) || ((a == "sat" || a == "unknown") && o.Cover) {
 			o.result = &SolveResult{Status: a, Solver: "z3-5.1.0", Seconds: per, File: file, All: map[string]string{"z3-5.1.0 (incremental)": a}}
 		}
 	}
